@@ -12,7 +12,7 @@ CHECKS = {
    note="trusted: the spelling renderer (harness/src/broad.rs) only produces spellings that denote the same sentence; three inherent ambiguities of the notation are excluded by construction and listed in the evidence assumptions",
    tech="property-based testing, metamorphic relation between two spellings of one generated sentence + by-construction byte-exact values"),
  "C03": dict(
-   text="property-based search over (definition, sentence, admissible permutation); thorough tier additionally enumerates every admissible permutation of levels with <=5 blocks",
+   text="property-based search over (definition, sentence, admissible permutation) plus a second family (repeated group of a named lead and positionals, named occurrences permuted around the words); thorough tier additionally enumerates every admissible permutation of levels with <=5 blocks",
    note="trusted: block construction (an argument and its value stay one block) and the same-field order constraint computed by the generator",
    tech="property-based testing, metamorphic relation between a line and a generated permutation of its named blocks (exhaustive permutations for small levels in the thorough tier)"),
  "C05": dict(
@@ -24,15 +24,15 @@ CHECKS = {
    note="trusted: the reference model for canonical shapes; for other positional orders only the metamorphic and validity clauses are asserted (documentation does not fix more)",
    tech="property-based testing: metamorphic replacement of everything right of `--`, validity predicate on accepted values, reference model for canonical shapes"),
  "C10": dict(
-   text="property-based search: help flag inserted as its own item at every position left of `--` of generated valid/invalid/incomplete lines; outcome must be stdout with the help text of the level entered (computed from that level alone); version flag likewise on valid lines",
+   text="property-based search: help flag inserted as its own item at every position left of `--` of generated valid/invalid/incomplete lines; outcome must be stdout with the help text of the level entered (computed from that level alone), also with the flag given twice; version flag likewise on valid lines; one case in eight: a choice between a positional branch and subcommands (command bare/fallback/optional) with the help flag behind the command name",
    note="trusted: the standalone rendering of a level's help as the reference text; for mutated lines any level on the chain of command names is accepted",
    tech="property-based testing: exhaustive insertion positions per generated line, differential against the help of the level built alone"),
  "C04": dict(
-   text="property-based search with the widest definition generator and arbitrary byte-string vectors over all modes (parse, help, version, completion revisions 0/1/7/8/9 with/without name, markdown/html/manpage) and run histories; panics are caught in-process, aborts/stack overflow/process exit/hangs are detected by the parent through per-case slot files and a watchdog",
-   note="termination cannot be established by testing: bounded generation + 180 s no-progress watchdog, hangs reported as inconclusive (exit 2). `--bpaf-complete-*` items are excluded (documented process exits)",
+   text="property-based search with the widest definition generator and arbitrary byte-string vectors (every wrapper, any(..) predicates, adjacent groups with any lead) over all modes (parse, help, version, completion revisions 0/1/7/8/9 with/without name, markdown/html/manpage) and run histories; panics are caught in-process, aborts/stack overflow/process exit/hangs are detected by the parent through per-case slot files and a watchdog",
+   note="termination cannot be established by testing: bounded generation; a single case that runs longer than 60 s (cases take milliseconds) is reported as a violation `no-termination`, a stalled worker without an attributable case as inconclusive (exit 2). `--bpaf-complete-*` items are excluded (documented process exits)",
    tech="property-based testing / fuzz-style totality check (catch_unwind + watchdog) with a history-replay purity oracle"),
  "C06": dict(
-   text="enumeration of every wrapper stack of depth <=3 (quick: <=2) x 4 contexts x 6 typed leaves x 6 invalid texts, plus property-based sampling with catch flags and unrelated fields; invalid-present must fail with the conversion/guard text, absent must default exactly when the stack can produce a value from nothing",
+   text="enumeration of every wrapper stack of depth <=3 (quick: <=2) x 5 contexts (plain, inside a choice, around a choice, subcommand, adjacent group) x 6 typed leaves x 6 invalid texts, plus property-based sampling with catch flags and unrelated fields; invalid-present must fail with the conversion/guard text, absent must default exactly when the stack can produce a value from nothing",
    note="trusted: the abstract evaluation of wrapper semantics on absence (harness/src/props/c06.rs absent_value), written from the documentation of each wrapper; FromStr error texts are obtained by calling the same FromStr",
    tech="exhaustive enumeration of wrapper stacks + property-based sampling; oracle: by-construction expectation per stack"),
  "C07": dict(
@@ -40,7 +40,7 @@ CHECKS = {
    note="trusted: the rule evaluator in harness/src/props/c07.rs (leftmost item wins, ties to the first listed, many/some in order of leftmost item); optional over always-succeeding alternatives is skipped (value not fixed by the documentation)",
    tech="property-based testing against a small reference evaluator of the documented alternative rule"),
  "C08": dict(
-   text="property-based search over command trees of depth <=3 with structural misplacement mutations; reference grammar model + by-construction values; help after the k-th command name compared with the help of that level built alone, at every depth",
+   text="property-based search over command trees of depth <=3 with structural misplacement mutations; reference grammar model + by-construction values; help after the k-th command name compared with the help of that level built alone, at every depth; one case in eight: a choice between a positional branch and subcommands in either order (command entered by its name as first free item, surplus word rejected, other words go to the positional branch)",
    note="trusted: reference model (levels) and standalone help rendering as the reference text",
    tech="property-based testing against the reference grammar model, plus differential help text per command level"),
  "C19": dict(
@@ -56,7 +56,7 @@ CHECKS = {
    note="trusted: width 65535 as the 'unwrapped' reference (largest width std::fmt accepts); the exception clause of the width rule is implemented generously (a wrapped term tail counts as a term)",
    tech="property-based testing: metamorphic relation between widths + validity predicate per line"),
  "C14": dict(
-   text="property-based search over partially typed lines (every cut of generated sentences x 10 kinds of typed word) at completion revision 0; each returned row is classified against name/value/metavariable sets computed from the definition and the chain of commands entered; completeness for freshly typed --prefixes",
+   text="property-based search over partially typed lines (every cut of generated sentences x 10 kinds of typed word) at completion revision 0; each returned row is classified against name/value/metavariable sets computed from the definition and the chain of commands entered; completeness for freshly typed --prefixes and command prefixes; metamorphic relation (an unrelated switch before the typed word changes nothing at the active level); second family: a name that is an alternative to a positional item",
    note="trusted: the chain-of-levels computation and the candidate sets derived from the definition; completeness only for items that are a field of their own",
    tech="property-based testing: validity predicate over parsed completion rows + completeness check from a by-construction expectation"),
  "C15": dict(
@@ -68,7 +68,7 @@ CHECKS = {
    note="no groff/mandoc/HTML parser available: lexers written from the formats the renderers emit are the trusted base",
    tech="property-based testing: validity lexers + round-trip (decode escapes, find the user's text) + completeness against --help"),
  "C11": dict(
-   text="property-based differential between in-process run_inner and the real OptionParser::run() in a spawned process (12k spawns in quick): same text on the same stream, same exit status, body reached iff a value was produced, program name from argv[0] incl. non-UTF-8/empty/path forms",
+   text="property-based differential between in-process run_inner and the real OptionParser::run() in a spawned process (40k spawns in quick): same text on the same stream, same exit status, body reached iff a value was produced, program name from argv[0] incl. non-UTF-8/empty/path forms; independent rule: stdout with status 0 only when a help/version flag is on the line (or a level with fallback_to_usage got no item)",
    note="trusted: the `subject` executable decodes the same choice bytes with the same generator; `--bpaf-complete-style-*`/unknown revisions and NUL bytes are excluded",
    tech="property-based testing, differential (spawned process vs in-process prediction)"),
  "C18": dict(
